@@ -110,6 +110,15 @@ TBodyDone ==
     /\ st' = BodyDoneDo(st, T.cid)
     /\ UNCHANGED tp /\ Adv
 
+\* the driver waited for the answer of a call and gave up: explainable only if the call is legitimately waiting - a poll
+\* that is parked with no wake-up due, or a request whose body has not arrived in full
+TNoAnswer ==
+    /\ Is("NoAnswer")
+    /\ T.cid \in DOMAIN st.calls
+    /\ \/ st.calls[T.cid].st = "parked" /\ ~WakeEn(st, T.cid)
+       \/ st.calls[T.cid].st = "issued" /\ st.calls[T.cid].slow
+    /\ UNCHANGED <<st, tp>> /\ Adv
+
 ResMatches(r, t) ==
     /\ r.status = t.status
     /\ (t.status >= 400 => r.et = t.et)
@@ -263,7 +272,7 @@ THook ==
 Observable ==
     \/ THook \/ TObs
     \/ TRestoreCall \/ TRestoreRet
-    \/ TBegin \/ TInitCall \/ TExec \/ TCall \/ TBodyDone \/ TRet \/ TInvokeCall \/ TInvokeRet
+    \/ TBegin \/ TInitCall \/ TExec \/ TCall \/ TBodyDone \/ TNoAnswer \/ TRet \/ TInvokeCall \/ TInvokeRet
     \/ TProcExit \/ TExitSend \/ TExitDelivered \/ TTerminate \/ TKillCall \/ TTel
     \/ TResetCall \/ TResetRet \/ TShutdownCall \/ TShutdownRet
 
